@@ -17,6 +17,7 @@ mod suite_ffixed;
 mod suite_fanyorder;
 mod suite_fmap;
 mod suite_fclone;
+mod suite_fidx;
 mod suite_forest;
 mod suite_fspec;
 mod suite_rt;
@@ -30,6 +31,7 @@ mod ser_ws;
 mod suite_ser;
 mod suite_fws;
 mod scope_dedup_class;
+mod scope_names;
 mod scope_oracle;
 mod suite_scope;
 mod suite_tree;
@@ -76,6 +78,7 @@ fn main() {
         "build" => suite_build::run(seed, count, tier, &mut sink),
         "fclone" => suite_fclone::run(seed, count, tier, &mut sink),
         "lex" => suite_lex::run(seed, count, tier, &mut sink),
+        "fidx" => suite_fidx::run(seed, count, tier, &mut sink),
         _ => {
             eprintln!("unknown suite {}", suite);
             std::process::exit(2);
